@@ -154,6 +154,8 @@ def _worker(job):
                 setattr(ex, k[3:], v)
         if job.opts.get('float_contract'):
             ses.use_float_contract()
+        if job.opts.get('no_float_overflow'):
+            ses.no_float_overflow()
         cellsout = []
         tmo = job.timeout or _DEFAULT_TIMEOUT
         deadline = time.time() + tmo if tmo else None
